@@ -540,8 +540,9 @@ func (p c05) Run(w *mon.Worker, idx int) mon.Result {
 	mut := ""
 	plainStream := !st.ZeroDocs
 	for _, f := range st.Features() {
-		// (empty / comment-only documents and tags with nothing behind them have bookkeeping of their own in the generator's truth)
-		if f == "tag:explicit_empty" || strings.HasPrefix(f, "bound:empty_doc") || strings.HasPrefix(f, "bound:comment_only_doc") {
+		// (empty / comment-only documents, tags with nothing behind them and comments have bookkeeping of their own in the
+		// generator's truth: which comment yaml.v3 itself moves, and where, is judged against it)
+		if f == "tag:explicit_empty" || strings.HasPrefix(f, "bound:empty_doc") || strings.HasPrefix(f, "bound:comment_only_doc") || strings.HasPrefix(f, "comment:") {
 			plainStream = false
 		}
 	}
